@@ -85,6 +85,7 @@ def gen_relay_schedules(uni, nconns, sids, filter_lists, sublimit, backend, dept
     if not hists:
         raise tlc.TlcError("relay schedule generation produced nothing: " + tlc.tlc_failed_how(res["out"]))
     seen = {}
+    ndisc = [0]
     for hist in hists:
         sched = []
         taus = 0
@@ -106,7 +107,10 @@ def gen_relay_schedules(uni, nconns, sids, filter_lists, sublimit, backend, dept
             elif h["c"] in closed or h["c"] not in opened:
                 continue
             elif a == "disc":
-                sched.append(("disc", h["c"]))
+                # the model's Disconnect is any end of the connection: the peer goes away, or (every third one) it stays
+                # silent until the relay's message timeout fires and the relay itself closes the connection
+                ndisc[0] += 1
+                sched.append(("timeout", h["c"]) if ndisc[0] % 3 == 0 else ("disc", h["c"]))
                 closed.add(h["c"])
             elif a == "REQ":
                 sched.append(("msg", h["c"], {"m": "REQ", "sid": h["sid"], "fs": filter_lists[h["k"] - 1]}))
